@@ -362,6 +362,7 @@ fn json_run(run: &VerifLbfgsRun, max_steps: usize) -> Value {
 // search oracles
 // ------------------------------------------------------------------------------------------
 struct LrStats {
+    zero_objective_exits: u64,
     worst_step_increase: f64,
     worst_pos_df0: f64,
     worst_cont: f64,
@@ -438,6 +439,18 @@ fn check_fit(out: &mut Out, st: &mut LrStats, x: &[Vec<f64>], y: &[f64], alpha: 
         }
     }
     check_descent(out, &fit.run, "fit", &mut st.worst_pos_df0);
+    // observation (root cause of the repaired line-search panic, not a clause of the property): ln_1pe's
+    // `x > 15 => x` shortcut lets the coded objective reach EXACTLY 0 while its gradient is still above the
+    // optimiser's tolerance; the line search then gives up (zero step) and L-BFGS stops by its step test
+    if let Some(last) = fit.run.steps.last() {
+        if last.f_new == 0.0 && inf_norm(&fit.run.g_final) > 1e-8 {
+            out.count("search:fit:observation:coded-objective-exactly-0-at-exit-with-gradient-above-g_atol");
+            st.zero_objective_exits += 1;
+        }
+        if fit.run.steps.iter().any(|s| s.alpha == 0.0) {
+            out.count("search:fit:observation:run-with-a-zero-step(line-search-gave-up)");
+        }
+    }
     // ---- stationarity (alpha > 0 only), relative to the gradient at zero; two-level threshold of D13
     if alpha > 0.0 {
         if g0 < MIN_G0 {
@@ -1003,7 +1016,7 @@ fn replay(path: &str) -> i32 {
     let v = read_replay(path);
     let inp = if v.get("input").is_some() { v["input"].clone() } else { v.clone() };
     let mut out = Out::new("C09", "replay");
-    let mut st = LrStats { worst_step_increase: 0.0, worst_pos_df0: 0.0, worst_cont: 0.0, max_legs: 0, worst: [0.0; 5], exits: [0; 5] };
+    let mut st = LrStats { zero_objective_exits: 0, worst_step_increase: 0.0, worst_pos_df0: 0.0, worst_cont: 0.0, max_legs: 0, worst: [0.0; 5], exits: [0; 5] };
     let mut qs = QuadStats { worst_pos_df0: 0.0, worst_k: 0.0, worst_ratio: 0.0, worst_iters: 0 };
     match inp["entry"].as_str().unwrap_or("") {
         "fit" | "predict" => {
@@ -1163,7 +1176,10 @@ fn check_linesearch_armijo(out: &mut Out, cs: &[f64], thr: f64, alpha0: f64, thi
     check_linesearch_armijo_df0(out, cs, thr, alpha0, third, max_iter, None)
 }
 fn check_linesearch_armijo_df0(out: &mut Out, cs: &[f64], thr: f64, alpha0: f64, third: bool, max_iter: usize, df0_given: Option<f64>) {
-    let input = json!({"entry": "line_search", "coeffs": cs, "thr": if thr.is_finite() { json!(thr) } else { json!(null) }, "alpha0": alpha0, "third": third, "max_iter": max_iter});
+    let mut input = json!({"entry": "line_search", "coeffs": cs, "thr": if thr.is_finite() { json!(thr) } else { json!(null) }, "alpha0": alpha0, "third": third, "max_iter": max_iter});
+    if let Some(d) = df0_given {
+        input["df0"] = json!(d);
+    }
     let (f0, df0) = (cs[0], df0_given.unwrap_or(if cs.len() > 1 { cs[1] } else { 0.0 }));
     let cs2 = cs.to_vec();
     let phi = move |a: f64| if a > thr { f64::INFINITY } else { horner(&cs2, a) };
@@ -1212,7 +1228,7 @@ fn main() {
         "C09",
         "search case = (training set, alpha) | (SPD quadratic, start, interpolation order) | (objective, point) | (1-D polynomial line search); non-trivial: fit with more rows than classes and starting gradient >= 0.05, quadratic of dimension >= 2 not started at its optimum, objective point with alpha > 0, line search along a descent direction; distinct by hash of all numbers of the input",
     );
-    let mut st = LrStats { worst_step_increase: 0.0, worst_pos_df0: 0.0, worst_cont: 0.0, max_legs: 0, worst: [0.0; 5], exits: [0; 5] };
+    let mut st = LrStats { zero_objective_exits: 0, worst_step_increase: 0.0, worst_pos_df0: 0.0, worst_cont: 0.0, max_legs: 0, worst: [0.0; 5], exits: [0; 5] };
     let mut qs = QuadStats { worst_pos_df0: 0.0, worst_k: 0.0, worst_ratio: 0.0, worst_iters: 0 };
     let t0 = std::time::Instant::now();
 
@@ -1224,6 +1240,16 @@ fn main() {
         let yi: Vec<usize> = y.iter().map(|v| *v as usize).collect();
         let w: Vec<f64> = vec![1.0, 0.5, 0.0, 1.0, -0.5, 1.0, 1.0, 0.0, -1.0];
         check_objective_point(&mut out, &x, &yi, 1.0, &w, 3);
+    }
+
+    // ---- corpus: the repaired line-search panic (78b374f): separable two-class data, alpha = 0 (the default); the
+    // coded objective reaches exactly 0 with a gradient of 1e-7, no step passes the Armijo test; fit must return
+    {
+        let x: Vec<Vec<f64>> = vec![
+            vec![53.0, -29.0, -314.0], vec![21.0, -32.0, -3.0], vec![-20.0, -28.0, -325.0], vec![14.0, -29.0, 110.0], vec![37.0, -30.0, 95.0],
+            vec![-34.0, -27.0, -205.0], vec![-1.0, -27.0, -335.0], vec![21.0, -28.0, 61.0], vec![30.0, -29.0, 167.0]];
+        let y = vec![0.0, 1.0, 0.0, 1.0, 1.0, 0.0, 0.0, 1.0, 1.0];
+        check_fit(&mut out, &mut st, &x, &y, 0.0, "corpus");
     }
 
     // ---- correspondence ----
@@ -1331,6 +1357,7 @@ fn main() {
                "worst_ratio": {"start": st.worst[0], "gradient": st.worst[1], "step": st.worst[2], "objective_flat": st.worst[3], "max_iter": st.worst[4]},
                "limits": {"gradient": TOL_GRAD_EXIT, "flat": TOL_FLAT_EXIT, "max_iter": TOL_MAXITER},
                "largest_single_step_increase_along_a_non_descent_direction_relative_to_starting_objective": st.worst_step_increase,
+               "fits_ending_with_coded_objective_exactly_zero_and_gradient_above_g_atol": st.zero_objective_exits,
                "max_iter_runs_continued": {"worst_ratio_after_continuation": st.worst_cont, "max_legs_of_1000_iterations": st.max_legs}}),
     );
     out.set("quadratics", json!({"worst_gradient_ratio": qs.worst_ratio, "max_iterations": qs.worst_iters,
